@@ -242,6 +242,11 @@ Theorem C06_judge_complete_state : forall s, scoped s -> invb s = true -> Inv s.
 Proof. exact invb_complete. Qed.
 Print Assumptions C06_judge_complete_state.
 
+Theorem C06_judge_complete_step : forall s o r ev s',
+  scoped s -> frame_outside s s' -> step_okb s o r ev s' = true -> step_ok s o r ev s'.
+Proof. exact step_okb_complete. Qed.
+Print Assumptions C06_judge_complete_step.
+
 (** non-vacuity: the two witness histories are legal for the repaired code
     as well and run to completion (with evictions, ghost hits, a discard and
     shared in-flight use of buffers on the way) *)
